@@ -82,6 +82,8 @@ impl Bounds {
 }
 
 const UNIT_WEIGHT: u64 = 1500;
+/// the oracle "a failed add leaves the runtime as it was" is evaluated for histories of at most this many items
+const ROLLBACK_ITEMS: usize = 3;
 
 struct Plan {
     skels: Vec<Skel>,
@@ -199,6 +201,14 @@ fn item_code(it: &CItem, indent: usize, out: &mut String) {
             let p: Vec<String> = it.path.iter().map(|s| format!("{}.into()", rust_str(s))).collect();
             out.push_str(&format!("{pad}Item::Use(Use::new(vec![vec![{}]], location!())),\n", p.join(", ")));
         }
+        K::ImplUse(r) => {
+            let p: Vec<String> = it.path.iter().map(|s| format!("{}.into()", rust_str(s))).collect();
+            out.push_str(&format!(
+                "{pad}{{ let mut i = Impl::new::<{}>(location!()); i.add(Use::new(vec![vec![{}]], location!())); Item::Impl(i) }},\n",
+                r.rust(),
+                p.join(", ")
+            ));
+        }
     }
 }
 
@@ -220,9 +230,10 @@ fn lib_json(lib: &Lib, pred: &Pred) -> Value {
     let mut uses = vec![];
     fn rec(items: &[CItem], depth: usize, uses: &mut Vec<Value>) {
         for it in items {
-            if it.k == K::Use {
-                uses.push(json!({"id": it.id, "path": it.path, "in_module": depth > 0,
-                                 "target": format!("{:?}", it.target.unwrap())}));
+            if it.k.is_use() {
+                uses.push(json!({"id": it.id, "path": it.path, "in_module": depth > 0 && it.k == K::Use,
+                                 "in_impl": it.k != K::Use,
+                                 "target": format!("{:?}", it.target)}));
             }
             rec(&it.ch, depth + 1, uses);
         }
@@ -233,7 +244,7 @@ fn lib_json(lib: &Lib, pred: &Pred) -> Value {
     let invalid: Vec<String> = lib
         .all_items()
         .iter()
-        .filter(|i| i.k != K::Use && !model::valid_ident(&i.name))
+        .filter(|i| !i.k.is_use() && !model::valid_ident(&i.name))
         .map(|i| i.name.clone())
         .collect();
     json!({
@@ -357,7 +368,121 @@ fn judge(
             out.push(Pending { class, case: c, expected, observed: json!(format!("{g:?}")) });
         }
     }
+    // an add that returned Err leaves the runtime as it was: everything the
+    // state before it binds still answers, nothing of the rejected library does
+    let have: Vec<bool> = obs.adds.iter().map(|a| a.is_ok()).collect();
+    if let (true, Some(rt), Some(false)) = (
+        lib.all_items().len() <= ROLLBACK_ITEMS
+            && !pred.open
+            && pred.construct_ok
+            && obs.construct.is_ok()
+            && have == pred.adds,
+        rt,
+        pred.adds.last(),
+    ) {
+        let rejected = &lib.adds[pred.adds.len() - 1];
+        let before = probe::probes(&pred.state);
+        let got = probe::run(rt, &before);
+        let leaked = probe::rejected_probes(&pred.state, rejected);
+        let got_leaked = probe::run(rt, &leaked);
+        if report {
+            cx.count("rollback_probes", (before.len() + leaked.len()) as u64);
+            cx.count("failed_adds_checked_for_rollback", 1);
+        }
+        // (not part of `sig`: what a failed add leaves behind depends on where
+        // it stopped; that is this violation, not a second one)
+        let mut bad = vec![];
+        for (p, g) in before.iter().zip(&got).chain(leaked.iter().zip(&got_leaked)) {
+            let fine = match (p.negative, g) {
+                (_, Got::Panic(_)) => false,
+                _ if p.no_panic_only => true,
+                (false, Got::Value(v)) => *v == p.expect,
+                (false, _) => false,
+                (true, Got::CompileError(_)) => true,
+                (true, _) => false,
+            };
+            if !fine {
+                bad.push(json!({"path": p.path, "script": p.src, "what": p.what,
+                                "expected": if p.negative { "a compile error".to_string() } else { p.expect.clone() },
+                                "observed": format!("{g:?}")}));
+            }
+        }
+        if !bad.is_empty() {
+            let mut c = case();
+            c["after_failed_add"] = json!(bad);
+            out.push(Pending {
+                class: "failed-add-not-rolled-back",
+                case: c,
+                expected: json!("after the Err the runtime is as before that add: every probe of the state before it holds, no item of the rejected library is reachable"),
+                observed: json!(format!("{} probes differ, first: {}", bad.len(), bad[0]["path"])),
+            });
+        }
+    }
     Outcome { sig, ok: obs.all_ok(), summary: obs.summary() }
+}
+
+/// Execute every permutation of one library; the permutations that show the
+/// same violation are reported once; the outcome must not depend on the order.
+pub(crate) fn run_permutations(
+    cx: &mut Cx,
+    n_perms: u64,
+    sub_of: &dyn Fn(u64) -> u64,
+    lib_of: &dyn Fn(u64) -> Lib,
+    extra: &[(&str, Value)],
+) {
+    let mut first: Option<Outcome> = None;
+    // violations of this library: key -> (first sub, pending, permutations)
+    let mut found: Vec<(String, u64, Pending, u64)> = vec![];
+    for perm in 0..n_perms {
+        let sub = sub_of(perm);
+        if !cx.case(sub) {
+            continue;
+        }
+        let lib = lib_of(perm);
+        let mut pend = vec![];
+        if first.is_none() && perm > 0 && cx.only().is_some() {
+            // replay of one permutation: the reference observation is that of permutation 0
+            let l0 = lib_of(0);
+            first = Some(execute(&l0, cx, false, &mut vec![]));
+        }
+        let o = execute(&lib, cx, true, &mut pend);
+        cx.outcome(o.sig);
+        cx.count(if o.ok { "registrations_ok" } else { "registrations_rejected" }, 1);
+        match &first {
+            None => first = Some(o),
+            Some(f) => {
+                if f.sig != o.sig {
+                    let o = &o;
+                    let pred = model::predict(&lib);
+                    let l0 = lib_of(0);
+                    let mut c = lib_json(&lib, &pred);
+                    c["first_permutation"] = json!(lib_code(&l0));
+                    pend.push(Pending {
+                        class: "order-dependence",
+                        case: c,
+                        expected: json!("the same outcome (Ok/Err of every step, result of every probe) as the first permutation of the same items"),
+                        observed: json!({"this_permutation": o.summary, "first_permutation": f.summary}),
+                    });
+                }
+            }
+        }
+        for p in pend {
+            let key = format!("{}|{}|{}|{}", p.class, p.expected, p.observed, p.case["probe"]["path"]);
+            match found.iter_mut().find(|f| f.0 == key) {
+                Some(f) => f.3 += 1,
+                None => found.push((key, sub, p, 1)),
+            }
+        }
+    }
+    for (_, sub, mut p, n) in found {
+        p.case["permutations_showing_this"] = json!(n);
+        p.case["permutations"] = json!(n_perms);
+        for (k, v) in extra {
+            p.case[*k] = v.clone();
+        }
+        cx.count("violating_executions", n);
+        cx.violation(p.class, sub, p.case, p.expected, p.observed);
+    }
 }
 
 fn interesting(lib: &Lib, pred: &Pred) -> bool {
@@ -399,7 +524,6 @@ impl C18 {
                 }
                 for split in 0..s.n_splits(two) {
                     let n_perms = s.n_perms(split);
-                    let mut first: Option<Outcome> = None;
                     cx.states(1);
                     {
                         let lib = s.instantiate(pat, r, split, 0);
@@ -411,59 +535,13 @@ impl C18 {
                             cx.sample(json!({"library": lib_code(&lib), "model": pred.summary()}));
                         }
                     }
-                    // violations of this library: key -> (first sub, pending, permutations)
-                    let mut found: Vec<(String, u64, Pending, u64)> = vec![];
-                    for perm in 0..n_perms {
-                        let sub = encode(si - lo, pi, split, perm);
-                        if !cx.case(sub) {
-                            continue;
-                        }
-                        let lib = s.instantiate(pat, r, split, perm);
-                        let mut pend = vec![];
-                        if first.is_none() && perm > 0 && cx.only().is_some() {
-                            // replay of one permutation: the reference
-                            // observation is that of permutation 0
-                            let l0 = s.instantiate(pat, r, split, 0);
-                            first = Some(execute(&l0, cx, false, &mut vec![]));
-                        }
-                        let o = execute(&lib, cx, true, &mut pend);
-                        cx.outcome(o.sig);
-                        cx.count(if o.ok { "registrations_ok" } else { "registrations_rejected" }, 1);
-                        match &first {
-                            None => first = Some(o),
-                            Some(f) => {
-                                if f.sig != o.sig {
-                                    let o = &o;
-                                    let pred = model::predict(&lib);
-                                    let l0 = s.instantiate(pat, r, split, 0);
-                                    let mut c = lib_json(&lib, &pred);
-                                    c["first_permutation"] = json!(lib_code(&l0));
-                                    pend.push(Pending {
-                                        class: "order-dependence",
-                                        case: c,
-                                        expected: json!("the same outcome (Ok/Err of every step, result of every probe) as the first permutation of the same items"),
-                                        observed: json!({"this_permutation": o.summary, "first_permutation": f.summary}),
-                                    });
-                                }
-                            }
-                        }
-                        for p in pend {
-                            let key = format!(
-                                "{}|{}|{}|{}",
-                                p.class, p.expected, p.observed, p.case["probe"]["path"]
-                            );
-                            match found.iter_mut().find(|f| f.0 == key) {
-                                Some(f) => f.3 += 1,
-                                None => found.push((key, sub, p, 1)),
-                            }
-                        }
-                    }
-                    for (_, sub, mut p, n) in found {
-                        p.case["permutations_showing_this"] = json!(n);
-                        p.case["permutations"] = json!(n_perms);
-                        cx.count("violating_executions", n);
-                        cx.violation(p.class, sub, p.case, p.expected, p.observed);
-                    }
+                    run_permutations(
+                        cx,
+                        n_perms,
+                        &|perm| encode(si - lo, pi, split, perm),
+                        &|perm| s.instantiate(pat, r, split, perm),
+                        &[],
+                    );
                 }
             }
         }
